@@ -32,7 +32,8 @@ ASSUMPTIONS = [
 
 ARITY_ERRORS = {"wrong-arg-count", "missing-parameter", "wrong-keyword-args",
                 "duplicate-keyword-argument"}
-KINDS = ["function", "method", "classmethod", "staticmethod", "constructor"]
+KINDS = ["function", "method", "classmethod", "staticmethod", "constructor",
+         "stub-function", "stub-method"]
 
 
 def all_signatures(max_each=2):
@@ -77,8 +78,9 @@ def sig_text(sig):
   return ", ".join(parts), names, allpos + kw
 
 
-def call_shapes(param_names, max_pos=5, max_kw=3, cap_kw_names=7):
-  names = list(param_names) + ["zz"]
+def call_shapes(param_names, max_pos=5, max_kw=3, cap_kw_names=7,
+                extra_names=()):
+  names = list(param_names) + ["zz"] + list(extra_names)
   out = []
   for npos in range(max_pos + 1):
     for r in range(max_kw + 1):
@@ -109,14 +111,18 @@ def valid_shapes(sig):
       for opt in itertools.combinations(optional, r):
         ks = tuple(required) + opt
         out.append((npos, ks))
+        if va:
+          out.append((npos, ks + ("args",)))
         if kwa:
+          out.append((npos, ks + ("kw",)))
           out.append((npos, ks + ("zz",)))
           if pos:
             out.append((npos, ks + (pos[0],)))
   return out
 
 
-PRELUDE_NAMES = ["a", "b", "c", "d", "e", "g", "h", "i", "j", "zz"]
+PRELUDE_NAMES = ["a", "b", "c", "d", "e", "g", "h", "i", "j", "zz", "args",
+                 "kw"]
 
 
 def prelude():
@@ -129,8 +135,37 @@ def prelude():
   return lines
 
 
+def stub_params(sig):
+  """The same signature in stub syntax (defaults are `...`, all Any)."""
+  params, _, _ = sig_text(sig)
+  import re
+  return re.sub(r"=D_\w+\(\)", "=...", params)
+
+
 def build_module(sig, kind, shapes):
   params, names, _ = sig_text(sig)
+  if kind.startswith("stub-"):
+    sp = stub_params(sig)
+    sep = ", " if sp else ""
+    if kind == "stub-function":
+      stub = "def f(%s) -> int: ...\n" % sp
+      pydef = "def f(%s): return 0" % params
+      callee = "stubmod.f"
+    else:
+      stub = "class C:\n    def f(self%s%s) -> int: ...\n" % (sep, sp)
+      pydef = "class C:\n  def f(self%s%s): return 0" % (sep, params)
+      callee = "stubmod.C().f"
+    lines = prelude() + ["import stubmod"]
+    first_line = len(lines) + 1
+    calls = []
+    for k, (npos, ks) in enumerate(shapes):
+      args = ["P%d()" % i for i in range(npos)] + [
+          "%s=KW_%s()" % (n, n) for n in ks]
+      expr = "%s(%s)" % (callee, ", ".join(args))
+      lines.append("r%d = %s" % (k, expr))
+      calls.append(expr)
+    return ("\n".join(lines) + "\n", calls, first_line, [],
+            {"stub": stub, "pydef": pydef})
   ret = "(%s)" % "".join(n + ", " for n in names) if names else "()"
   lines = prelude()
   if kind == "function":
@@ -163,7 +198,7 @@ def build_module(sig, kind, shapes):
       expr += ".got"
     lines.append("r%d = %s" % (k, expr))
     calls.append(expr)
-  return "\n".join(lines) + "\n", calls, first_line, names
+  return "\n".join(lines) + "\n", calls, first_line, names, None
 
 
 def runtime_outcome(ns, expr):
@@ -246,17 +281,34 @@ def position_ok(got, exp):
 def check_module(ctx, sig, kind, shapes):
   boot.ensure()
   from pytype.pytd import pytd
-  src, calls, first_line, names = build_module(sig, kind, shapes)
+  src, calls, first_line, names, stubinfo = build_module(sig, kind, shapes)
   case = {"sig": list(sig), "kind": kind, "shapes": [[n, list(k)]
                                                      for n, k in shapes]}
+  extra = {}
+  if stubinfo:
+    import os
+    d = os.path.join(boot.VERIF, ".run", "C13", "s%d" % ctx.shard)
+    os.makedirs(d, exist_ok=True)
+    with open(os.path.join(d, "stubmod.pyi"), "w") as f:
+      f.write(stubinfo["stub"])
+    extra = {"pythonpath": d}
   try:
-    r = an.infer(src)
+    r = an.infer(src, **extra)
   except Exception as e:  # pylint: disable=broad-except
     ctx.event("analysis-raised:" + type(e).__name__)
     return
+  if any(n in ("import-error", "pyi-error") for n, _, _ in r.errors):
+    raise RuntimeError("harness: stub module not importable: %s" % r.errors[:2])
   ns = {}
-  defs = "\n".join(src.split("\n")[:first_line - 1])
+  defs = "\n".join(l for l in src.split("\n")[:first_line - 1]
+                   if l != "import stubmod")
   exec(compile(defs, "m.py", "exec"), ns)  # pylint: disable=exec-used
+  if stubinfo:
+    import types
+    mod = types.ModuleType("stubmod")
+    mod.__dict__.update(ns)
+    exec(compile(stubinfo["pydef"], "stubmod.py", "exec"), mod.__dict__)  # pylint: disable=exec-used
+    ns["stubmod"] = mod
   errs = {}
   for name, line, msg in r.errors:
     errs.setdefault(line, []).append((name, msg))
@@ -328,7 +380,10 @@ def plan(tier):
   items = []
   for si, sig in enumerate(sigs):
     _, _, plain = sig_text(sig)
-    shapes = call_shapes(plain)
+    # a keyword spelled like the *args / **kw parameter is just another
+    # unknown keyword for CPython
+    star_names = (["args"] if sig[5] else []) + (["kw"] if sig[6] else [])
+    shapes = call_shapes(plain, extra_names=star_names)
     for ki, kind in enumerate(KINDS):
       if tier == "quick":
         # stratified: each signature with one kind, a strided slice of shapes
